@@ -357,8 +357,8 @@ pub fn run_with(w: usize, t: usize, reorder: bool, src: &str, given: Option<&str
                     b.sort();
                 }
                 f.push(format!("c10={}", (a == b) as u8));
-                let mut aw: Vec<String> = a.iter().map(|x| obs::strip_line_ends(x)).collect();
-                let mut bw: Vec<String> = b.iter().map(|x| obs::strip_line_ends(x)).collect();
+                let mut aw: Vec<String> = a.iter().map(|x| obs::tolerate_f4(x)).collect();
+                let mut bw: Vec<String> = b.iter().map(|x| obs::tolerate_f4(x)).collect();
                 if reorder {
                     aw.sort();
                     bw.sort();
